@@ -105,30 +105,35 @@ def header_fields(F, S):
     rb = F.fn(M + "::ReadMapBeginning", nparams=1)
     got = {}
     multi = set()
-    for nd in rb.nodes:
-        if is_store(nd):
-            l = rb.term(rb.kids(nd["id"])[0])
-            if l[0] == "mem" and l[1][0] == "var":
-                if l[2] in got or len(rb.kids(nd["id"])) != 2:
-                    multi.add(l[2])
-                    continue
-                got[l[2]] = rb.term(rb.kids(nd["id"])[1])
+    hdr_vars = []
+    # the map's fields are filled in by ReadMapBeginning, or by a helper it was split into (which is then handed the header)
+    from ..through import closure
+    for rf in closure(F, rb, depth=2):
+        for nd in rf.nodes:
+            if is_store(nd):
+                l = rf.term(rf.kids(nd["id"])[0])
+                if l[0] == "mem" and l[1][0] == "var":
+                    if l[2] in got or len(rf.kids(nd["id"])) != 2:
+                        multi.add(l[2])
+                        continue
+                    got[l[2]] = rf.term(rf.kids(nd["id"])[1])
+        for nd in rf.nodes:
+            if nd["k"] == "DeclStmt":
+                for d in nd.get("decls", []):
+                    if d.get("rec") == "OP2Utility::MapHeader":
+                        hdr_vars.append(("var", d["n"], d["d"]))
+        hdr_vars += [("var", p["n"], p["d"]) for p in rf.params if p.get("rec") == "OP2Utility::MapHeader"]
     for m in multi:
         got[m] = None
     def hdr(f):
-        return lambda t: t is not None and t[0] == "mem" and t[2] == f
-    hdr_local = None
-    for nd in rb.nodes:
-        if nd["k"] == "DeclStmt":
-            for d in nd.get("decls", []):
-                if d.get("rec") == "OP2Utility::MapHeader":
-                    hdr_local = ("var", d["n"], d["d"])
+        return lambda t: t is not None and t[0] == "mem" and t[2] == f and t[1] in hdr_vars
+    hdr_local = hdr_vars[0] if hdr_vars else None
     probs = []
     if not hdr("versionTag")(got.get("versionTag")): probs.append("versionTag")
     if not hdr("bSavedGame")(got.get("isSavedGame")): probs.append("isSavedGame")
     if not hdr("heightInTiles")(got.get("heightInTiles")): probs.append("heightInTiles")
     w = got.get("widthInTiles")
-    if not (w and hdr_local is not None and w == F.method_value("OP2Utility::MapHeader::WidthInTiles", hdr_local)): probs.append("widthInTiles")
+    if not (w and any(w == F.method_value("OP2Utility::MapHeader::WidthInTiles", hv) for hv in hdr_vars)): probs.append("widthInTiles")
     inst = M + "::ReadMapBeginning#fields"
     req = "the map's scalar members are taken from the header fields of the same name"
     if not probs:
